@@ -2,7 +2,10 @@
 package c02
 
 import (
+	"encoding/json"
 	"fmt"
+	"os"
+	"path/filepath"
 	"runtime/debug"
 	"sort"
 	"strings"
@@ -14,6 +17,7 @@ import (
 	"verif/gen"
 	"verif/irload"
 	"verif/irwf"
+	"verif/lintrun"
 	"verif/vf"
 )
 
@@ -97,7 +101,7 @@ func Run(r *vf.Run) {
 	chunk := 5
 	for i := 0; i < len(std); i += chunk {
 		part := std[i:min(len(std), i+chunk)]
-		addReal("std:"+strings.Join(part, ","), func() ([]*packages.Package, error) { return corpus.Load("/repo", false, part...) }, realModes)
+		addReal("std:"+strings.Join(part, ","), func() ([]*packages.Package, error) { return corpus.Load(vf.Repo(), false, part...) }, realModes)
 	}
 	repoPats := []string{"./pattern", "./config", "./unused", "./analysis/...", "./go/ir/...", "./lintcmd/...", "./staticcheck/sa4023", "./simple/s1008", "./stylecheck/st1003"}
 	if r.Thorough() {
@@ -105,9 +109,9 @@ func Run(r *vf.Run) {
 	}
 	for _, p := range repoPats {
 		p := p
-		addReal("repo:"+p, func() ([]*packages.Package, error) { return corpus.Load("/repo", true, p) }, realModes)
+		addReal("repo:"+p, func() ([]*packages.Package, error) { return corpus.Load(vf.Repo(), true, p) }, realModes)
 	}
-	tds := corpus.TestdataDirs("/repo")
+	tds := corpus.TestdataDirs(vf.Repo())
 	if !r.Thorough() {
 		// seeded subset in the quick tier
 		rng := r.Rand("testdata", 0)
@@ -116,7 +120,7 @@ func Run(r *vf.Run) {
 	}
 	for _, td := range tds {
 		td := td
-		addReal("testdata:"+strings.TrimPrefix(td[0], "/repo/"), func() ([]*packages.Package, error) { return corpus.LoadTestdata(td[0], td[1]) },
+		addReal("testdata:"+strings.TrimPrefix(td[0], vf.Repo()+"/"), func() ([]*packages.Package, error) { return corpus.LoadTestdata(td[0], td[1]) },
 			[]ir.BuilderMode{ir.GlobalDebug, ir.NaiveForm | ir.InstantiateGenerics})
 	}
 
@@ -151,6 +155,10 @@ func Run(r *vf.Run) {
 		}(i, j)
 	}
 	wg.Wait()
+
+	// 3. the IR the linter itself builds (one Program per package, GlobalDebug,
+	// lifted), observed by the VFY9004 monitor analyzer inside the real runner
+	linterFns, linterPkgs := lintersOwnIR(r)
 
 	total := irwf.NewStats()
 	fnsChecked, discards, loadFailures := 0, 0, 0
@@ -189,6 +197,8 @@ func Run(r *vf.Run) {
 	r.Set("generator_discards", discards)
 	r.Set("load_failures", loadFailures)
 	r.Set("jobs", len(jobs))
+	r.Set("functions_checked_inside_the_linter", linterFns)
+	r.Set("packages_checked_inside_the_linter", linterPkgs)
 	names := []string{}
 	for _, res := range results {
 		if res.err == nil {
@@ -234,4 +244,46 @@ func merge(dst, src *irwf.Stats) {
 	for k, v := range src.Obligations {
 		dst.Obligations[k] += v
 	}
+}
+
+// lintersOwnIR runs vlint's IR monitor over real packages through the real runner.
+func lintersOwnIR(r *vf.Run) (fns, pkgs int) {
+	bin := r.BuildBin("vlint", "./cmd/vlint", false)
+	cache := filepath.Join(r.Scratch(), "vlint-cache")
+	os.MkdirAll(cache, 0o755)
+	pats := []string{"strings", "sort", "strconv", "bufio", "fmt", "encoding/json", "text/template", "go/parser", "net/url", "honnef.co/go/tools/pattern", "honnef.co/go/tools/unused", "honnef.co/go/tools/go/ir", "honnef.co/go/tools/lintcmd/..."}
+	if r.Thorough() {
+		pats = []string{"std", "honnef.co/go/tools/..."}
+	}
+	res := lintrun.Cmd{Bin: bin, Dir: vf.Repo(), Env: []string{"STATICCHECK_CACHE=" + cache}, Args: append([]string{"-verif.only-monitors", "-checks", "VFY9004", "-f", "json"}, pats...), Watchdog: 2400}.Run()
+	if res.Killed {
+		r.Inconclusive("watchdog fired on the vlint IR pass")
+		return
+	}
+	if res.Crashed() || res.Exit > 1 {
+		r.Violation("linter-crashed-while-building-ir", fmt.Sprintf("vlint exit %d", res.Exit), map[string]any{"stderr": firstLine(string(res.Stderr))})
+		return
+	}
+	ps, err := res.Problems()
+	if err != nil {
+		r.Inconclusive("unparsable vlint output: %v", err)
+		return
+	}
+	for _, p := range ps {
+		if p.Code != "VFY9004" {
+			continue
+		}
+		switch {
+		case strings.HasPrefix(p.Message, "irwf stats "):
+			var st map[string]int
+			json.Unmarshal([]byte(strings.TrimPrefix(p.Message, "irwf stats ")), &st)
+			fns += st["funcs"]
+			pkgs++
+		case strings.HasPrefix(p.Message, "irwf issue "):
+			var is irwf.Issue
+			json.Unmarshal([]byte(strings.TrimPrefix(p.Message, "irwf issue ")), &is)
+			r.Violation(is.Rule, "[IR built by the linter] "+is.Fn+": "+is.Msg, map[string]any{"package_file": p.Location.File, "function": is.Fn, "message": is.Msg})
+		}
+	}
+	return
 }
